@@ -163,10 +163,77 @@ BROAD_MODES = {
 }
 
 
+# Extreme values of every numeric parameter, each inside the feature that reads it.  One mode per value.  Only values that
+# both the documentation and the implementation's own range table accept (validity itself is C07's business).
+_NOISE = {"noise_amp": 0.05, "memo": False}
+_XTREME = [
+    # (context name, context mode, flags, parameter, values)
+    ("", {}, set(), "tr_radius.eta1", [0.001, 0.69]),
+    ("", {}, set(), "tr_radius.eta2", [0.11, 0.999]),
+    ("", {}, set(), "tr_radius.gamma_dec", [0.01, 0.999]),
+    ("", {}, set(), "tr_radius.gamma_inc", [1.0, 50.0]),
+    ("", {}, set(), "tr_radius.gamma_inc_overline", [1.0, 100.0]),
+    ("", {}, set(), "tr_radius.alpha1", [0.001, 0.999]),
+    ("", {}, set(), "tr_radius.alpha2", [0.001, 0.1, 0.999]),
+    ("", {}, set(), "general.safety_step_thresh", [0.0, 0.999, 5.0]),
+    ("", {}, set(), "general.rounding_error_constant", [0.0, 1e6]),
+    ("", {}, set(), "model.abs_tol", [0.0, 1e3]),
+    ("", {}, set(), "model.rel_tol", [0.0, 0.999]),
+    ("", {}, set(), "slow.history_for_slow", [1, 50]),
+    ("", {}, set(), "slow.thresh_for_slow", [0.0, 1e6]),
+    ("", {}, set(), "slow.max_slow_iters", [1, 1000]),
+    ("npt5", {"npt": 5}, set(), "regression.num_extra_steps", [3, 4]),
+    ("soft", {"up": dict(_R)}, set(), "restarts.max_unsuccessful_restarts", [2, 3]),
+    ("soft", {"up": dict(_R)}, set(), "restarts.rhoend_scale", [1e-3, 1.0]),
+    ("soft", {"up": dict(_R)}, set(), "restarts.soft.num_geom_steps", [0, 2]),
+    ("soft", {"up": dict(_R)}, set(), "restarts.soft.max_fake_successful_steps", [1, 100]),
+    ("hard", {"up": dict(_H)}, set(), "restarts.max_unsuccessful_restarts", [2]),
+    ("hard", {"up": dict(_H)}, set(), "restarts.rhoend_scale", [1e-3, 1.0]),
+    ("softinc", {"up": dict(_R, **{"restarts.increase_npt": True, "restarts.max_npt_plus": 3})}, {"random"}, "restarts.increase_npt_amt", [1, 3]),
+    ("softauto", {"up": dict(_R), "objfun_has_noise": True, "noise_amp": 0.3, "memo": False}, {"noisy"}, "restarts.auto_detect.history", [1, 2]),
+    ("softauto", {"up": dict(_R, **{"restarts.auto_detect.history": 3}), "objfun_has_noise": True, "noise_amp": 0.3, "memo": False}, {"noisy"},
+     "restarts.auto_detect.min_chgJ_slope", [0.0, 1e3]),
+    ("softauto", {"up": dict(_R, **{"restarts.auto_detect.history": 3}), "objfun_has_noise": True, "noise_amp": 0.3, "memo": False}, {"noisy"},
+     "restarts.auto_detect.min_correl", [0.0, 0.999]),
+    ("noise", dict(_NOISE, up={"noise.quit_on_noise_level": True, "noise.additive_noise_level": 0.5}), {"noisy"}, "noise.scale_factor_for_quit", [0.0, 1e3]),
+    ("noise", dict(_NOISE, up={"noise.quit_on_noise_level": True}), {"noisy"}, "noise.additive_noise_level", [0.0, 1e6]),
+    ("noise", dict(_NOISE, up={"noise.quit_on_noise_level": True}), {"noisy"}, "noise.multiplicative_noise_level", [0.0, 1e3]),
+    ("grow", {"up": dict(_G)}, {"random"}, "growing.num_new_dirns_each_iter", [0, 2]),
+    ("grow", {"up": dict(_G)}, {"random"}, "growing.delta_scale_new_dirns", [1e-3, 10.0]),
+    ("grow", {"up": dict(_G)}, {"random"}, "growing.gamma_dec", [0.01, 0.999]),
+    ("grow", {"up": dict(_G)}, {"random"}, "growing.full_rank.scale_factor", [0.0, 10.0]),
+    ("grow", {"up": dict(_G)}, {"random"}, "growing.full_rank.svd_scale_factor", [0.0, 1.0]),
+    ("grow", {"up": dict(_G)}, {"random"}, "growing.full_rank.min_sing_val", [0.0, 1.0]),
+    ("grow", {"up": dict(_G)}, {"random"}, "growing.full_rank.svd_max_jac_cond", [1.0, 1e16]),
+    ("sets", {"sets": _SETS2}, {"sets"}, "dykstra.d_tol", [0.0, 1e-2]),
+    ("sets", {"sets": _SETS2}, {"sets"}, "dykstra.max_iters", [1, 2]),
+    ("sets", {"sets": _SETS2}, {"sets"}, "matrix_rank.r_tol", [0.0, 1e-6]),
+    ("l1", {"reg": {"r": "l1", "lam": 0.05}, "up": dict(_F)}, {"regfast"}, "func_tol.criticality_measure", [1e-8, 1.0]),
+    ("l1", {"reg": {"r": "l1", "lam": 0.05}, "up": dict(_F)}, {"regfast"}, "func_tol.tr_step", [0.001, 0.999]),
+    ("l1", {"reg": {"r": "l1", "lam": 0.05}}, {"regfast"}, "func_tol.max_iters", [1, 2]),
+    ("l1", {"reg": {"r": "l1", "lam": 0.05}, "up": dict(_F)}, {"regfast"}, "sfista.max_iters_scaling", [1.0, 5.0]),
+]
+# radii: rhobeg barely above rhoend, very large rhobeg, very small rhoend
+_XRADII = [("radii_close", {"rhobeg": 0.015, "rhoend": 0.01}), ("radii_close_soft", {"rhobeg": 0.015, "rhoend": 0.01, "up": dict(_R)}),
+           ("radii_huge_rhobeg", {"rhobeg": 1e4}), ("radii_tiny_rhoend", {"rhobeg": 1e-6, "rhoend": 1e-14})]
+
+
+def extreme_modes():
+    out = []
+    for ctx, m, flags, key, vals in _XTREME:
+        for v in vals:
+            m2 = dict(m)
+            m2["up"] = dict(m.get("up", {}), **{key: v})
+            out.append(("x/%s%s=%g" % (ctx + "/" if ctx else "", key, v), (m2, set(flags) | {"extreme"})))
+    for name, m in _XRADII:
+        out.append(("x/" + name, (dict(m), {"extreme"})))
+    return out
+
+
 def _overlaid_modes(overlays):
     """The bank itself plus, for each requested overlay, every compatible mode combined with one cross-cutting feature:
     'avg' (two samples per point, so that evaluation and point counters differ) and 'soft' (soft restarts)."""
-    items = list(BROAD_MODES.items())
+    items = list(BROAD_MODES.items()) + extreme_modes()
     for ov in overlays:
         for name, (m, flags) in BROAD_MODES.items():
             if "reg" in flags:
@@ -201,8 +268,8 @@ def broad_cfgs(probs=("rosen", "nzr"), budgets=(7, 25, 60), salt=0, exclude=(), 
             n = DIM[prob]
             npt = m.get("npt", n + 1)
             for maxfun in (reg_budgets if "reg" in flags else budgets):
-                cfg = base_cfg(prob, salt, npt=npt, rhobeg=0.3, rhoend=rhoend, maxfun=maxfun, memo=m.get("memo", True),
-                               tag_mode="broad/" + name)
+                cfg = base_cfg(prob, salt, npt=npt, rhobeg=m.get("rhobeg", 0.3), rhoend=m.get("rhoend", rhoend), maxfun=maxfun,
+                               memo=m.get("memo", True), tag_mode="broad/" + name)
                 for k in ("lo", "hi", "scaling", "sets", "reg", "nsamples", "noise_amp", "objfun_has_noise", "do_logging"):
                     if k in m:
                         cfg[k] = m[k]
